@@ -69,6 +69,9 @@ func main() {
 		}
 		lists = append(lists, three...)
 		lists = append(lists, []int{-1})
+		// a foreign stanza whose type and arguments contain the footer marker "---"
+		alpha = append(alpha, rc{"Udash", &lab.Unknown{Type: "v---1", N: 1, Args: []string{"a---b", "---"}}, nil})
+		lists = append(lists, []int{5, 0}, []int{0, 5}, []int{5, 2, 0})
 		plain := lab.Plain(5, c.Seed)
 
 		mk := func(l []int) *target {
@@ -108,12 +111,15 @@ func main() {
 			t.hdr = f[:len(f)-len(rest)]
 			rr := refage.OpenFile(f, t.keys[0].Ref, C)
 			if !rr.Accepted {
-				panic("reference cannot open file")
+				// the real encoder's output is not a file the reference opens (that is C05's subject); the edits below are
+				// judged against the real Decrypt all the same
+				c.Outcome("reference decoder does not open the real output (" + rr.Stage + ")")
 			}
 			t.fk = rr.FileKey
 			return t
 		}
 
+		stranger := keys.X(8)
 		// judge one tampered header (header bytes replaced, payload kept)
 		judge := func(t *target, part, id string, newHdr []byte, desc string) {
 			if bytes.HasPrefix(append(append([]byte{}, newHdr...), t.rest...), t.hdr) {
@@ -126,36 +132,50 @@ func main() {
 			}
 			c.DistinctOnce(ev.Hash64([]byte(t.name), newHdr))
 			tampered := append(append([]byte{}, newHdr...), t.rest...)
+			// the identity able to open the original, alone and (always followed by, for one edit in eight also preceded
+			// by) identities that match nothing
+			type idl struct {
+				tag string
+				ids func(k *keys.Key) []age.Identity
+			}
+			variants := []idl{{"", func(k *keys.Key) []age.Identity { return []age.Identity{k.Id} }},
+				{"+stranger", func(k *keys.Key) []age.Identity { return []age.Identity{k.Id, stranger.Id} }}}
+			if ev.Hash64(newHdr)%8 == 0 {
+				variants = append(variants, idl{"+strangers-around", func(k *keys.Key) []age.Identity { return []age.Identity{stranger.Id, k.Id, stranger.Id, stranger.Id} }})
+			}
 			for _, k := range t.keys {
-				c.Eval(1)
-				cr := &countingReader{r: bytes.NewReader(tampered)}
-				var rd io.Reader
-				var err error
-				pan := ""
-				func() {
-					defer func() {
-						if r := recover(); r != nil {
-							pan = fmt.Sprint(r)
-						}
+				for _, v := range variants {
+					k := &keys.Key{Name: k.Name + v.tag, Id: &multiID{v.ids(k)}}
+					c.Eval(1)
+					cr := &countingReader{r: bytes.NewReader(tampered)}
+					var rd io.Reader
+					var err error
+					pan := ""
+					func() {
+						defer func() {
+							if r := recover(); r != nil {
+								pan = fmt.Sprint(r)
+							}
+						}()
+						rd, err = age.Decrypt(cr, k.Id.(*multiID).ids...)
 					}()
-					rd, err = age.Decrypt(cr, k.Id)
-				}()
-				det := map[string]interface{}{"file": t.name, "identity": k.Name, "edit": desc, "tampered_header": ev.Clip(string(newHdr), 700), "err": lab.ErrText(err)}
-				switch {
-				case pan != "":
-					c.Fail("panic", id+"/"+k.Name, "Decrypt panicked: "+pan, det)
-				case err == nil:
-					out, _ := io.ReadAll(rd)
-					det["plaintext_released"] = len(out)
-					c.Fail("altered-header-accepted/"+part, id+"/"+k.Name, "Decrypt accepts a file whose header was altered ("+desc+")", det)
-				case rd != nil:
-					c.Fail("reader-with-error", id+"/"+k.Name, "Decrypt returned an error together with a reader", det)
+					det := map[string]interface{}{"file": t.name, "identity": k.Name, "edit": desc, "tampered_header": ev.Clip(string(newHdr), 700), "err": lab.ErrText(err)}
+					switch {
+					case pan != "":
+						c.Fail("panic", id+"/"+k.Name, "Decrypt panicked: "+pan, det)
+					case err == nil:
+						out, _ := io.ReadAll(rd)
+						det["plaintext_released"] = len(out)
+						c.Fail("altered-header-accepted/"+part, id+"/"+k.Name, "Decrypt accepts a file whose header was altered ("+desc+")", det)
+					case rd != nil:
+						c.Fail("reader-with-error", id+"/"+k.Name, "Decrypt returned an error together with a reader", det)
+					}
+					if cr.n > len(newHdr)+4096 {
+						// informational only: the property does not bound read-ahead before the refusal
+						c.Outcome("refused after reading beyond header+4096 bytes")
+					}
+					c.Outcome(part + " rejected")
 				}
-				if cr.n > len(newHdr)+4096 {
-					// informational only: the property does not bound read-ahead before the refusal
-					c.Outcome("refused after reading beyond header+4096 bytes")
-				}
-				c.Outcome(part + " rejected")
 			}
 		}
 
@@ -329,3 +349,8 @@ func main() {
 		}
 	})
 }
+
+// multiID only carries an identity list through the *keys.Key plumbing of judge.
+type multiID struct{ ids []age.Identity }
+
+func (m *multiID) Unwrap(st []*age.Stanza) ([]byte, error) { return nil, age.ErrIncorrectIdentity }
